@@ -8,6 +8,7 @@ import (
 	"io"
 	"net"
 	"runtime"
+	"sort"
 	"strconv"
 	"strings"
 	"sync"
@@ -79,6 +80,102 @@ func snapshot() []gsnap {
 		out = append(out, gsnap{id, st})
 	}
 	return out
+}
+
+// dumpAll is mon.GoroutineDump with a reused buffer (a fresh 1 MiB allocation
+// per dump is very expensive under the race detector).
+func dumpAll() string {
+	stackMu.Lock()
+	defer stackMu.Unlock()
+	for {
+		n := runtime.Stack(stackBuf, true)
+		if n < len(stackBuf) {
+			return string(stackBuf[:n])
+		}
+		stackBuf = make([]byte, 2*len(stackBuf))
+	}
+}
+
+// quiescent is mon.Quiescent (same definition of "frozen": n dumps gap apart
+// with identical goroutine sets, states and stacks, and nobody but the caller
+// running, runnable, sleeping or in a syscall) on top of dumpAll.
+func quiescent(n int, gap time.Duration) (frozen bool, gs []mon.G, dump string) {
+	self := ""
+	{
+		b := make([]byte, 64)
+		b = b[:runtime.Stack(b, false)]
+		if f := strings.Fields(string(b)); len(f) > 1 {
+			self = f[1]
+		}
+	}
+	sig := func(gs []mon.G) string {
+		var l []string
+		for _, g := range gs {
+			if g.ID != self {
+				l = append(l, g.ID+"|"+g.State+"|"+strings.Join(g.Frames, ";"))
+			}
+		}
+		sort.Strings(l)
+		return strings.Join(l, "\n")
+	}
+	prev := ""
+	for i := 0; i < n; i++ {
+		if i > 0 {
+			time.Sleep(gap)
+		}
+		dump = dumpAll()
+		gs = parseDump(dump)
+		s := sig(gs)
+		if i > 0 && s != prev {
+			return false, gs, dump
+		}
+		prev = s
+	}
+	for _, g := range gs {
+		if g.ID == self {
+			continue
+		}
+		switch g.State {
+		case "running", "runnable", "sleep", "syscall", "semacquire":
+			return false, gs, dump
+		}
+	}
+	return true, gs, dump
+}
+
+// parseDump is mon.ParseDump without regular expressions (slow under -race).
+func parseDump(dump string) []mon.G {
+	var gs []mon.G
+	for _, blk := range strings.Split(dump, "\n\n") {
+		blk = strings.TrimSpace(blk)
+		if !strings.HasPrefix(blk, "goroutine ") {
+			continue
+		}
+		lines := strings.Split(blk, "\n")
+		h := lines[0][len("goroutine "):]
+		sp := strings.IndexByte(h, ' ')
+		lb := strings.IndexByte(h, '[')
+		rb := strings.LastIndexByte(h, ']')
+		if sp <= 0 || lb < 0 || rb < lb {
+			continue
+		}
+		st := h[lb+1 : rb]
+		if k := strings.IndexByte(st, ','); k >= 0 {
+			st = st[:k]
+		}
+		g := mon.G{ID: h[:sp], State: st, Raw: blk}
+		for _, l := range lines[1:] {
+			if strings.HasPrefix(l, "\t") || strings.HasPrefix(l, "created by") {
+				continue
+			}
+			if k := strings.LastIndex(l, "("); k > 0 {
+				l = l[:k]
+			}
+			g.Frames = append(g.Frames, l)
+		}
+		gs = append(gs, g)
+	}
+	return gs
 }
 
 // parked: blocked on a channel, mutex or cond — states that only another
@@ -815,7 +912,7 @@ func (e *env) frozenVerdict(opFrame, opName, suffix string, extra map[string]any
 	e.mu.Lock()
 	owed := e.reqsSeen != e.reqsDone
 	e.mu.Unlock()
-	frozen, gs, dump := mon.Quiescent(3, 200*time.Millisecond)
+	frozen, gs, dump := quiescent(3, 200*time.Millisecond)
 	if !frozen {
 		return false
 	}
@@ -1061,7 +1158,7 @@ func (e *env) doListen(p lplan) *lst {
 	e.mu.Unlock()
 	if st != stReturned {
 		diag := ""
-		for _, g := range mon.ParseDump(mon.GoroutineDump()) {
+		for _, g := range parseDump(dumpAll()) {
 			if true {
 				fr := g.Frames
 				if len(fr) > 8 {
@@ -1261,7 +1358,7 @@ func (e *env) checkStarved(where string) {
 	if bad == nil {
 		return
 	}
-	frozen, _, dump := mon.Quiescent(3, 200*time.Millisecond)
+	frozen, _, dump := quiescent(3, 200*time.Millisecond)
 	if !frozen {
 		return
 	}
@@ -1542,7 +1639,7 @@ func (e *env) pendingCheck() {
 		e.m.Count("final_all_forwards_resolved", 1)
 		return
 	}
-	frozen, _, dump := mon.Quiescent(3, 200*time.Millisecond)
+	frozen, _, dump := quiescent(3, 200*time.Millisecond)
 	if !frozen {
 		e.inconclusive("unresolved forwards but the system is not frozen")
 		return
@@ -1569,7 +1666,7 @@ func (e *env) leakCheck(stage string) {
 	if !e.settle() {
 		return
 	}
-	gs := mon.ParseDump(mon.GoroutineDump())
+	gs := parseDump(dumpAll())
 	found := false
 	for _, g := range gs {
 		id, _ := strconv.Atoi(g.ID)
@@ -1581,7 +1678,7 @@ func (e *env) leakCheck(stage string) {
 		e.m.Count("leak_check_clean:"+stage, 1)
 		return
 	}
-	frozen, gs, dump := mon.Quiescent(3, 200*time.Millisecond)
+	frozen, gs, dump := quiescent(3, 200*time.Millisecond)
 	if !frozen {
 		e.inconclusive("goroutine inside forwardList but the system is not frozen")
 		return
@@ -1691,7 +1788,7 @@ func (e *env) teardown() {
 		closeAll()
 	}
 	// something is parked for good
-	gs := mon.ParseDump(mon.GoroutineDump())
+	gs := parseDump(dumpAll())
 	var raw []string
 	flLeft := ""
 	for _, g := range gs {
@@ -1708,7 +1805,7 @@ func (e *env) teardown() {
 	}
 	e.m.Count("teardown_leftover_goroutines", 1)
 	if flLeft != "" && !wasDead {
-		frozen, _, dump := mon.Quiescent(3, 200*time.Millisecond)
+		frozen, _, dump := quiescent(3, 200*time.Millisecond)
 		if frozen {
 			e.mu.Lock()
 			w := e.witnessLocked(nil, nil)
